@@ -1,29 +1,14 @@
-import TmVerif.Proofs.Lookahead
+import TmVerif.Proofs.LookaheadOrder
 /-!
 C08 — runtime lookahead decisions pick the alternative whose predicates hold (property theorems only).
 
 Universe: every list `las` of alternatives (any length, any predicate inputs, any negations, any
 targets) and every valuation `v : Int → Bool` of the predicate inputs.  `newLookaheadRule` is the
 mirror of `lalr.newLookaheadRule`, `evalRule` the `if … else if … else` chain the templates emit,
-`sat la v` the conjunction `(?= A & !B …)`.
+`sat la v` the conjunction `(?= A & !B …)`, `OrderedBy las rank` says that every alternative lists
+its predicate inputs in strictly increasing `rank`.
 -/
 namespace TmVerif.Lookahead
-
-deriving instance DecidableEq for Except
-
-theorem newLookaheadRule_ok {las : List Alt} {r : Rule} (h : newLookaheadRule las = .ok r) :
-    (dfsTop las).1.fuelOut = false ∧ (dfsTop las).1.cycle = false ∧
-      (dfsTop las).2 = (nodesOf las).length + 1 ∧
-      elim las.length las (dfsTop las).1.order = .ok r := by
-  unfold newLookaheadRule at h
-  simp only at h
-  split at h
-  · cases h
-  · split at h
-    · cases h
-    · split at h
-      · cases h
-      · simp_all
 
 /-- Accepted ⇒ for every valuation satisfying exactly one alternative the emitted chain selects
 that alternative's nonterminal. -/
@@ -31,30 +16,72 @@ theorem C08_decision_correct (las : List Alt) (r : Rule) (h : newLookaheadRule l
     (v : Int → Bool) (k : Nat) (hk : k < las.length) (hsat : sat las[k] v = true)
     (_hothers : ∀ j (hj : j < las.length), j ≠ k → sat las[j] v = false) :
     evalRule r.cases r.default v = las[k].target :=
-  elim_decision (newLookaheadRule_ok h).2.2.2 v _ (List.getElem_mem hk) hsat
+  elim_decision (newLookaheadRule_ok h).2.2 v _ (List.getElem_mem hk) hsat
 
+-- non-vacuity: an accepted set, and a valuation (1 ↦ true, 2 ↦ true) satisfying exactly the first alternative
 example : newLookaheadRule [⟨[⟨1, false⟩, ⟨2, false⟩], 7⟩, ⟨[⟨2, true⟩], 8⟩]
     = .ok ⟨[⟨⟨2, false⟩, 7⟩], 8⟩ := by decide
+example : sat ⟨[⟨1, false⟩, ⟨2, false⟩], 7⟩ (fun _ => true) = true ∧
+    sat ⟨[⟨2, true⟩], 8⟩ (fun _ => true) = false := by decide
 
-/-- The same without the exclusivity hypothesis: the chain selects every alternative that holds
-(so at most one can hold, see below). -/
+/-- The exclusivity hypothesis is not needed: the chain selects every alternative that holds. -/
 theorem C08_decision_correct_any (las : List Alt) (r : Rule) (h : newLookaheadRule las = .ok r)
     (v : Int → Bool) (k : Nat) (hk : k < las.length) (hsat : sat las[k] v = true) :
     evalRule r.cases r.default v = las[k].target :=
-  elim_decision (newLookaheadRule_ok h).2.2.2 v _ (List.getElem_mem hk) hsat
+  elim_decision (newLookaheadRule_ok h).2.2 v _ (List.getElem_mem hk) hsat
 
-/-- Accepted ⇒ no valuation satisfies two alternatives.  (Contrapositive: a set that is not
-mutually exclusive is rejected with an error.) -/
+/-- Accepted ⇒ no valuation satisfies two alternatives. -/
 theorem C08_accepted_mutually_exclusive (las : List Alt) (r : Rule)
     (h : newLookaheadRule las = .ok r) (j k : Nat) (hj : j < las.length) (hk : k < las.length)
     (hne : j ≠ k) (v : Int → Bool) : ¬(sat las[j] v = true ∧ sat las[k] v = true) := by
-  have hp := elim_exclusive (newLookaheadRule_ok h).2.2.2
+  have hp := elim_exclusive (newLookaheadRule_ok h).2.2
   rw [List.pairwise_iff_getElem] at hp
   rcases Nat.lt_or_gt_of_ne hne with hlt | hgt
   · exact hp j k hj hk hlt v
   · exact fun hv => hp k j hk hj hgt v ⟨hv.2, hv.1⟩
 
+/-- … so a set with two alternatives that can hold together is rejected with an error. -/
+theorem C08_not_exclusive_rejected (las : List Alt) (j k : Nat) (hj : j < las.length)
+    (hk : k < las.length) (hne : j ≠ k) (v : Int → Bool)
+    (hv : sat las[j] v = true ∧ sat las[k] v = true) : ∃ e, newLookaheadRule las = .error e := by
+  cases h : newLookaheadRule las with
+  | error e => exact ⟨e, rfl⟩
+  | ok r => exact absurd hv (C08_accepted_mutually_exclusive las r h j k hj hk hne v)
+
+-- non-vacuity: `(?= 1)` and `(?= 1 & !2)` hold together under 1 ↦ true, 2 ↦ false
 example : newLookaheadRule [⟨[⟨1, false⟩], 7⟩, ⟨[⟨1, false⟩, ⟨2, true⟩], 8⟩] = .error .undecidable := by
   decide
+
+/-- Accepted ⇒ the orders in which the alternatives list their predicate inputs embed in one
+total order (a rank function on the inputs that increases along every alternative). -/
+theorem C08_accepted_consistent_order (las : List Alt) (r : Rule)
+    (h : newLookaheadRule las = .ok r) : ∃ rank : Int → Nat, OrderedBy las rank :=
+  ⟨_, orderedBy_of_good las (newLookaheadRule_ok h).1⟩
+
+/-- … so a set whose alternatives cannot be ordered consistently is rejected with an error. -/
+theorem C08_inconsistent_order_rejected (las : List Alt)
+    (hno : ¬ ∃ rank : Int → Nat, OrderedBy las rank) : ∃ e, newLookaheadRule las = .error e := by
+  cases h : newLookaheadRule las with
+  | error e => exact ⟨e, rfl⟩
+  | ok r => exact absurd (C08_accepted_consistent_order las r h) hno
+
+-- non-vacuity: `1 & 2` against `2 & 1`
+example : newLookaheadRule [⟨[⟨1, false⟩, ⟨2, false⟩], 7⟩, ⟨[⟨2, false⟩, ⟨1, false⟩], 8⟩]
+    = .error .inconsistent := by decide
+
+/-- Accepted ⇒ that total order is unique: two rank functions compatible with all alternatives
+order any two mentioned predicate inputs the same way (`top.depth == len(nodes)+1`). -/
+theorem C08_accepted_order_unique (las : List Alt) (r : Rule) (h : newLookaheadRule las = .ok r)
+    (r1 r2 : Int → Nat) (h1 : OrderedBy las r1) (h2 : OrderedBy las r2) (x y : Int)
+    (hx : ∃ la ∈ las, x ∈ la.preds.map (·.input)) (hy : ∃ la ∈ las, y ∈ la.preds.map (·.input)) :
+    (r1 x < r1 y ↔ r2 x < r2 y) :=
+  order_unique las (newLookaheadRule_ok h).1 (newLookaheadRule_ok h).2.1 r1 r2 h1 h2
+    x (List.mem_flatMap.2 hx) y (List.mem_flatMap.2 hy)
+
+-- non-vacuity: a rank for the accepted set above; an undetermined order is rejected
+example : OrderedBy [⟨[⟨1, false⟩, ⟨2, false⟩], 7⟩, ⟨[⟨2, true⟩], 8⟩] (fun x => x.toNat) := by
+  unfold OrderedBy; decide
+example : newLookaheadRule [⟨[⟨1, false⟩, ⟨2, false⟩], 7⟩, ⟨[⟨1, true⟩, ⟨3, false⟩], 8⟩]
+    = .error .ambiguous := by decide
 
 end TmVerif.Lookahead
